@@ -118,12 +118,12 @@ def t_is_prod(r, a, b):
 
 
 def t_mag_lt(x, y):
-    e0 = min2(x[1], y[1])
+    e0 = ite(x[1] <= y[1], x[1], y[1])
     return x[2] * pow2(x[1] - e0) < y[2] * pow2(y[1] - e0)
 
 
 def t_mag_eq(x, y):
-    e0 = min2(x[1], y[1])
+    e0 = ite(x[1] <= y[1], x[1], y[1])
     return x[2] * pow2(x[1] - e0) == y[2] * pow2(y[1] - e0)
 
 
@@ -184,6 +184,38 @@ def finite_operand(x):
 def has_zero_sign(x):
     """operand types that carry a sign on zero"""
     return cls_name(x) == 'RealFloat' or cls_name(x) == 'float' or cls_name(x) == 'Float'
+
+
+def cmp3(a, other):
+    """
+    (lt, eq, gt): the order of D(a) (a finite triple) and D(other) in Q u {+inf, -inf, NaN}:
+    all three are false iff other is NaN (unordered).
+    """
+    if cls_name(other) == 'Fraction':
+        va = t_val_q(a)
+        return (va < other, va == other, va > other)
+    if cls_name(other) == 'float':
+        b = trip(other)
+        nan = f64_isnan(other)
+        inf = f64_isinf(other)
+        neg = f64_sign(other)
+        return (ite(nan, False, ite(inf, not neg, t_lt(a, b))),
+                ite(nan, False, ite(inf, False, t_eq(a, b))),
+                ite(nan, False, ite(inf, neg, t_lt(b, a))))
+    if cls_name(other) == 'Float':
+        b = trip(other)
+        return (ite(other._isnan, False, ite(other._isinf, not b[0], t_lt(a, b))),
+                ite(other._isnan, False, ite(other._isinf, False, t_eq(a, b))),
+                ite(other._isnan, False, ite(other._isinf, b[0], t_lt(b, a))))
+    b = trip(other)
+    return (t_lt(a, b), t_eq(a, b), t_lt(b, a))
+
+
+def fork_on(c):
+    """case split of the proof on the condition c (a Python `if` forks the symbolic path); no native effect"""
+    if c:
+        return True
+    return False
 
 
 def ord_is(result, nm):
